@@ -182,6 +182,12 @@ fn worker_threads_alive() -> usize {
 fn run_handle_program(first_kind: u8, prog: &[HOp], workers: usize, check_threads: bool) -> Result<(Vec<HOp>, u64), (String, String)> {
     let dir = fresh_dir();
     let r = std::panic::catch_unwind(std::panic::AssertUnwindSafe(|| -> Result<(Vec<HOp>, u64), (String, String)> {
+        // first_kind 3..=5: the live instance is a *recovered* one (created, closed, opened again): the lock is then taken on
+        // the path `Database::recover` uses, not the one `create_new` uses
+        let (first_kind, recovered_start) = (first_kind % 3, first_kind >= 3);
+        if recovered_start {
+            drop(open_kind(&dir, first_kind, 0).map_err(|e| ("open".to_string(), format!("{e:?}")))?);
+        }
         let db = open_kind(&dir, first_kind, workers).map_err(|e| ("open".to_string(), format!("{e:?}")))?;
         let mut w = HWorld { dir: dir.clone(), dbs: vec![Some(db)], kss: vec![], snap: None, writes: 0 };
         for op in prog {
@@ -305,8 +311,10 @@ pub fn run(tier: &str) -> i32 {
     let mut transitions = 0u64;
     let mut completed_depth = 0;
     let mut per_level = vec![];
-    for first_kind in 0..3u8 {
+    for first_kind in 0..6u8 {
         let mut level: Vec<Vec<HOp>> = vec![vec![]];
+        // recovered start states get one level less
+        let depth = if first_kind >= 3 { depth - 1 } else { depth };
         for d in 0..=depth {
             let next: Mutex<Vec<Vec<HOp>>> = Mutex::new(vec![]);
             let (done, to) = crate::par::par_for_core(level.len(), if d <= 3 { level.len() } else { 0 }, threads(), deadline, |i| {
